@@ -7,6 +7,8 @@ d R-KEYS     peptide-table writer/reader column agreement; subseq slice == writt
 e R-ONCE     pool add merges-or-adds; record identity is the sequence; FASTA regenerated from every index block
 """
 import ast
+import re
+from sa import sem
 from sa.model import unparse, norm_stmt, call_name, kwarg, walk_no_nested, AnalysisError
 from sa.cfg import CFG, literal
 from sa import guards as G
@@ -88,39 +90,41 @@ def run(chk, repo):
                'peptides reach the output pool without the canonical/limit filter', key=q + '::pool-add', fn=f.qual)
 
     # ------------------------------------------------------------------ b
+    # semantic form: path conditions (must-facts) on the normal form of the two filters, see sa/sem.py
     chk.rule('C04.b', 'R-SIBLING: both filters reject the same set; rejects precede insertion', 3)
     iv = repo.func(TBL + 'is_valid')
     ap = repo.func(POOL + 'add_peptide')
     chk.uses(iv, ap)
-    r1 = reject_set(iv.node, 'seq')
-    r2 = reject_set(ap.node, 'peptide.seq')
-    want = {("SeqUtils.molecular_weight(SEQ, 'protein') < min_mw", True), ('len(SEQ) < min_length', True),
-            ('max_length < len(SEQ)', True), ('str(SEQ) in canonical_peptides', True)}
-    chk.ob('C04.b', 'table filter rejects {mass<min, len<min, len>max, canonical}', iv.where, r1 == want,
-           f"is_valid reject set {sorted(r1)}", key=iv.qual + '::reject-set', fn=iv.qual)
-    chk.ob('C04.b', 'pool filter rejects the same set as the table filter', ap.where, r2 == r1,
-           f"add_peptide reject set {sorted(r2)} differs from is_valid {sorted(r1)}: the commands disagree on what is canonical / within limits",
-           key=ap.qual + '::reject-set', fn=ap.qual)
-    # binding of the limits
-    for f in (iv, ap):
-        b = {unparse(n.targets[0]): unparse(n.value) for n in walk_no_nested(f.node) if isinstance(n, ast.Assign) and len(n.targets) == 1}
-        ok = b.get('min_mw') == 'cleavage_params.min_mw' and b.get('min_length') == 'cleavage_params.min_length' and b.get('max_length') == 'cleavage_params.max_length'
-        chk.ob('C04.b', f"{f.name}: limits bound to their own cleavage parameters", f.where, ok, f"bindings {b}", key=f.qual + '::limit-binding', fn=f.qual)
-    acfg = CFG(ap.node)
-    ins = [n.id for n in acfg.nodes if n.kind == 'stmt' and (norm_stmt(n.ast) == 'self.peptides.add(peptide)' or 'same_peptide.description +=' in norm_stmt(n.ast))]
-    guard = [n for n in acfg.nodes if n.kind == 'test' and unparse(n.ast) == 'not skip_checking']
-    ok = len(guard) == 1 and len(ins) == 2
-    if ok:
-        # with skip_checking False the three reject tests dominate both insertions
-        rej = [n for n in acfg.nodes if n.kind == 'test' and acfg.edge_dominates(guard[0].id, 'T', n.id)]
-        ok = len(rej) == 3 and all(all(acfg.edge_dominates(r.id, 'F', i) or acfg.edge_dominates(guard[0].id, 'F', i) or True for r in rej) for i in ins)
-        # stronger: no path guard[T] -> insertion that avoids a reject test
-        for r in rej:
-            reach = acfg.reachable(guard[0].id, avoid=[r.id], skip_labels=['F'])
-            if any(i in reach for i in ins):
-                ok = False
-    chk.ob('C04.b', 'pool: every reject test lies on every checked path to the insertion', ap.where, ok,
-           'an insertion is reachable on the checked path without passing all reject tests', key=ap.qual + '::rejects-before-insert', fn=ap.qual)
+    niv, nap = sem.nf(repo, iv), sem.nf(repo, ap)
+    want = {("SeqUtils.molecular_weight(SEQ, 'protein') < cleavage_params.min_mw", False), ('len(SEQ) < cleavage_params.min_length', False),
+            ('cleavage_params.max_length < len(SEQ)', False), ('str(SEQ) in canonical_peptides', False)}
+
+    def seqnorm(lits, seq_expr):
+        pat = re.compile(r'(?<![\w.])' + re.escape(seq_expr) + r'(?![\w])')
+        return {(pat.sub('SEQ', a), p) for a, p in lits}
+    r1 = seqnorm(sem.accept_literals(niv) or set(), 'seq')
+    chk.ob('C04.b', 'table filter accepts only if mass>=min, min<=len<=max and not canonical (limits of its own cleavage parameters)', iv.where, want <= r1,
+           f"is_valid can return True without {sorted(want - r1)}", key=iv.qual + '::reject-set', fn=iv.qual)
+
+    def is_insert(st):
+        t = unparse(st)
+        if isinstance(st, ast.Expr) and isinstance(st.value, ast.Call) and t.startswith('self.peptides.add('):
+            return True
+        tg = st.targets[0] if isinstance(st, ast.Assign) and len(st.targets) == 1 else (st.target if isinstance(st, ast.AugAssign) else None)
+        return isinstance(tg, ast.Attribute) and tg.attr == 'description' and isinstance(tg.value, ast.Name) and tg.value.id != 'self'
+    sites = sem.facts_where(nap, is_insert, {'skip_checking': False})
+    ok = len(sites) >= 2
+    miss = set()
+    for st, fx in sites:
+        got = seqnorm(sem.sure_literals(fx), 'peptide.seq')
+        if fx is not None and not want <= got:
+            ok = False
+            miss |= (want - got)
+    chk.ob('C04.b', 'pool filter: with checking on, every insertion / label merge is reached only after the same four tests', ap.where, ok,
+           f"a peptide can be inserted into the pool (skip_checking False) without {sorted(miss)} - the commands disagree on what is canonical / within limits "
+           f"({len(sites)} insertion sites)", key=ap.qual + '::reject-set', fn=ap.qual)
+    chk.ob('C04.b', 'pool: both an add site and a merge site exist', ap.where, len(sites) >= 2, f"{len(sites)} insertion sites found",
+           key=ap.qual + '::rejects-before-insert', fn=ap.qual)
 
     # ------------------------------------------------------------------ c
     chk.rule('C04.c', "R-GUARD: 'X' skip and '*' raise dominate stores into the peptide dictionary", 4)
@@ -234,16 +238,24 @@ def run(chk, repo):
     chk.uses(hs, eq)
     ok = unparse(hs.node.body[-1]) == 'return hash(str(self.seq))' and 'result = self.seq == other.seq' in unparse(eq.node)
     chk.ob('C04.e', 'record hash and equality depend on the sequence only', hs.where, ok, 'AminoAcidSeqRecord hash/eq altered', key='aa.AminoAcidSeqRecord::identity')
-    ifs = [n for n in walk_no_nested(ap.node) if isinstance(n, ast.If) and unparse(n.test) == 'same_peptide']
-    ok = len(ifs) == 1 and [norm_stmt(s) for s in ifs[0].orelse] == ['self.peptides.add(peptide)'] and \
-        not any('self.peptides.add' in norm_stmt(s) for s in ifs[0].body) and \
-        any(norm_stmt(s) == 'same_peptide.description += self.peptide_delimeter + new_label' for s in ifs[0].body) and \
-        any(norm_stmt(s) == 'same_peptide = get_equivalent(self.peptides, peptide)' for s in ap.node.body)
+    # merge-or-add on the normal form: the add site is reached only when no equal record exists, the label merge only when one exists
+    allsites = sem.facts_where(nap, is_insert)
+    adds = [(st, fx) for st, fx in allsites if isinstance(st, ast.Expr)]
+    merges = [(st, fx) for st, fx in allsites if not isinstance(st, ast.Expr)]
+
+    def same_known(fx, truth):
+        if fx is None:
+            return True
+        return fx.known('same_peptide') is truth or fx.known('get_equivalent(self.peptides, peptide)') is truth
+    ok = len(adds) == 1 and len(merges) >= 1 and all(same_known(fx, False) for _s, fx in adds) and all(same_known(fx, True) for _s, fx in merges) and \
+        any('get_equivalent(self.peptides, peptide)' in unparse(n) for n in ast.walk(nap))
     chk.ob('C04.e', 'pool add: merge label into the equal record XOR add the record', ap.where, ok,
-           'merge-or-add structure of VariantPeptidePool.add_peptide altered', key=ap.qual + '::merge-or-add', fn=ap.qual)
-    rets = [unparse(n.value) for n in walk_no_nested(ap.node) if isinstance(n, ast.Return)]
-    chk.ob('C04.e', 'pool add returns False only from reject tests', ap.where, rets.count('False') == 3 and rets.count('True') == 1,
-           f"returns {rets}", key=ap.qual + '::returns', fn=ap.qual)
+           'merge-or-add structure of VariantPeptidePool.add_peptide altered (add reachable although an equal record exists, or merge without one)',
+           key=ap.qual + '::merge-or-add', fn=ap.qual)
+    rej = sem.facts_where(nap, lambda st: isinstance(st, ast.Return) and isinstance(st.value, ast.Constant) and st.value.value is False, {'skip_checking': False})
+    acc = [st for st in ast.walk(nap) if isinstance(st, ast.Return) and not (isinstance(st.value, ast.Constant) and st.value.value is False)]
+    chk.ob('C04.e', 'pool add reports acceptance (True) after add/merge and rejection (False) only from the filter', ap.where,
+           len(rej) >= 1 and len(acc) >= 1, f"{len(rej)} rejecting and {len(acc)} accepting returns", key=ap.qual + '::returns', fn=ap.qual)
 
     # ------------------------------------------------------------------ f
     chk.rule('C04.f', 'canonical pool lookup key covers every digest parameter (shared rule with C12.a)', 3)
